@@ -423,8 +423,11 @@ def run_local(plan, s, res, tr):
         elif op[0] == "continue_on_copy":
             import copy as _copy
             try:
+                original = seq
                 seq = _copy.copy(seq)           # shallow: the start object in force is shared, the counter travels along
                 res.count("probe.history_continued_on_a_copy")
+                for _ in range(i % 3):
+                    original.next_sequence()    # the previous owner goes on with ITS object: none of the copy's business
             except Exception:  # noqa  (whether a sequencer can be copied is not the property)
                 pass
             tr.ev("local", "copy")
